@@ -227,6 +227,7 @@ def run(chk):
     crow = run_corruption(chk, ccases)
     tried = rejected = useless = nonkey = unchanged = controls = 0
     fields = {}
+    byfam = {}
     for r in crow:
         c = ccases[r["case"]]
         chk.evaluated(key="corrupt:" + c["name"])
@@ -240,6 +241,8 @@ def run(chk):
         controls += 1 if r.get("control") else 0
         for f, n in (r.get("fields") or {}).items():
             fields[f] = fields.get(f, 0) + n
+        for f, n in (r.get("byFamily") or {}).items():
+            byfam[f] = byfam.get(f, 0) + n
         for v in r.get("violations") or []:
             chk.violation({"kind": v["kind"], "what": v["what"][:1500], "config": c["name"], "corrupt_case": c})
         if r["nonKeyAccepted"]:
@@ -253,7 +256,7 @@ def run(chk):
         if not chk.violations:
             raise vlib.Inconclusive("vacuous corruption run: %d blobs tried, pristine control accepted in %d of %d cases" % (tried, controls, len(crow)))
     chk.parts["corruption"] = {"cases": len(ccases), "blobs_tried": tried, "refused_with_error": rejected, "accepted_but_authenticates_nothing": useless,
-                               "accepted_identical_state": unchanged, "accepted_nonkey_fields_changed": nonkey, "fields_hit": fields,
+                               "accepted_identical_state": unchanged, "accepted_nonkey_fields_changed": nonkey, "fields_hit": fields, "outcome_by_mutation_family": byfam,
                                "pristine_controls": controls}
     # ---- DTLS 1.3 state is refused
     c13 = [{"name": "%s" % s, "scen": dict(ver="13", suite=s, cidC=-1, cidS=-1, curvesC=[29], curvesS=[29]), "steps": []} for s in suites.SUITES13]
